@@ -296,6 +296,18 @@ def gen_stack(rng, rs, spec, names, priced, prefix, opts, is_child=False):
         st.append({"a": "TargetVol", "args": [rng.choice([0.05, 0.15])], "kw": {"lookback": {"$off": {"days": 20}}, "lag": lag}})
         st.insert(1, {"a": "RunAfterDays", "args": [16]})
         desc.append("targetvol")
+    if opts.get("pte", True) and nd >= 30 and len(priced) >= 2 and rng.random() < 0.15 and not is_child:
+        # tracking-error trigger in front of a dated-target rebalance
+        fn = prefix + "pte_tw"
+        f = _rand_frame(rs, nd, priced, "weights", rng)
+        f["rows"] = None
+        f["values"] = (rs.dirichlet(np.ones(len(priced)), size=nd) * rng.uniform(0.6, 1.0)).tolist()
+        spec["extras"][fn] = f
+        st = [x for x in st if not ("a" in x and x["a"].startswith(("Weigh", "Limit", "Scale", "TargetVol")))]
+        st.insert(1, {"a": "RunAfterDays", "args": [16]})
+        st.append({"a": "PTE_Rebalance", "args": [rng.choice([0.01, 0.03, 0.08]), {"$frame": fn}], "kw": {"lookback": {"$off": {"days": 20}}, "lag": lag}})
+        st.append({"a": "WeighTarget", "args": [fn]})
+        desc.append("pte")
     if rng.random() < 0.8:
         st.append({"a": "Rebalance"})
         desc.append("rebalance")
